@@ -62,13 +62,13 @@ def main():
                 spec = yunit.parse_spec(sp)
             except yast.Abort as a:
                 undecided.append(f'{os.path.basename(sp)}: {a}'); continue
-            jobs = [j for j in spec.jobs if prop in j.get('props', '').split(',') and (tier == 'thorough' or j.get('tier', 'quick') == 'quick')]
+            jobs = [j for j in spec.jobs if prop in j.get('props', '').split(',') and j.get('wip') != '1' and (tier == 'thorough' or j.get('tier', 'quick') == 'quick')]
             if not jobs: continue
             try:
                 cpath, spec2, unit = yrun.emit_unit(ast, sp, outdir)
             except yast.Abort as a:
                 undecided.append(f'{os.path.basename(sp)}: extraction mismatch: {a}'); continue
-            jobs = [j for j in spec2.jobs if prop in j.get('props', '').split(',') and (tier == 'thorough' or j.get('tier', 'quick') == 'quick')]
+            jobs = [j for j in spec2.jobs if prop in j.get('props', '').split(',') and j.get('wip') != '1' and (tier == 'thorough' or j.get('tier', 'quick') == 'quick')]
             units[os.path.basename(sp)] = {'functions': unit.functions, 'c_file_sha': hashlib.sha256(open(cpath, 'rb').read()).hexdigest()[:12]}
             for j in jobs: todo.append((cpath, j, spec2, sp))
         if not todo and not undecided: undecided.append('no job is tagged with this property')
